@@ -204,6 +204,13 @@ func (h *Hist) Exec(op string) *BlockResult {
 			txs = append(txs, p.bytes)
 		}
 		bo := BlockOpts{Dt: time.Duration(ms) * time.Millisecond, Txs: txs}
+		for _, x := range f[2:] { // blk <ms> ns=<n>: block times need not fall on whole milliseconds
+			if strings.HasPrefix(x, "ns=") {
+				if n, err := strconv.ParseInt(x[3:], 10, 64); err == nil {
+					bo.Dt += time.Duration(n)
+				}
+			}
+		}
 		if len(f) > 2 && strings.HasPrefix(f[2], "abs=") { // blk <ms> abs=v0,v2: these validators do not vote
 			bo.Absent = map[string]bool{}
 			for _, n := range strings.Split(f[2][4:], ",") {
